@@ -254,7 +254,545 @@ theorem closureSep_local : ∀ (ts : List Tok) (m d : Nat) (p1 : Tok),
     intro m d p1
     unfold closureSep
     repeat' split
-    all_goals simp only [outside_cons, ih]
+    all_goals simp only [outside_cons]
     all_goals simp_all [clsComma]
+
+
+theorem outside_outside (S S' : Tok → Bool) (h : ∀ t, S t = true → S' t = true) (ts : List Tok) :
+    outside S' (outside S ts) = outside S' ts := by
+  unfold outside
+  rw [List.filter_filter]
+  congr 1
+  funext t
+  cases hs : S t <;> cases hs' : S' t <;> simp_all
+
+theorem outside_mono {S S' : Tok → Bool} (h : ∀ t, S t = true → S' t = true) {a b : List Tok}
+    (hab : outside S a = outside S b) : outside S' a = outside S' b := by
+  rw [← outside_outside S S' h a, ← outside_outside S S' h b, hab]
+
+theorem hards_eq_outside (cfg : Cfg) (ts : List Tok) : hards cfg ts = outside (soft cfg) ts := rfl
+
+theorem clsDelim_soft (cfg) (t) (h : clsDelim t = true) : soft cfg t = true := by
+  simp only [clsDelim, Bool.or_eq_true] at h
+  unfold soft; rcases h with h | h <;> simp [h]
+theorem clsAbi_soft (cfg) (t) (h : clsAbi t = true) : soft cfg t = true := by
+  simp only [clsAbi] at h; unfold soft; simp [h]
+theorem clsVis_soft (cfg) (t) (h : clsVis t = true) : soft cfg t = true := by
+  simp only [clsVis, Bool.or_eq_true] at h
+  unfold soft; rcases h with h | h <;> simp [h]
+theorem clsEmpty_soft (cfg) (t) (h : clsEmpty t = true) : soft cfg t = true := by
+  simp only [clsEmpty, Bool.or_eq_true] at h
+  unfold soft; rcases h with (((h | h) | h) | h) | h <;> simp [h]
+theorem clsPipe_soft (cfg) (t) (h : clsPipe t = true) : soft cfg t = true := by
+  simp only [clsPipe] at h; unfold soft; simp [h]
+theorem clsSemi_soft (cfg) (t) (h : clsSemi t = true) : soft cfg t = true := by
+  simp only [clsSemi] at h; unfold soft; simp [h]
+theorem clsComma_soft (cfg) (t) (h : clsComma t = true) : soft cfg t = true := by
+  simp only [clsComma] at h; unfold soft; simp [h]
+theorem clsBlock_soft (cfg) (t) (h : clsBlock t = true) : soft cfg t = true := by
+  simp only [clsBlock, Bool.or_eq_true] at h
+  rcases h with h | h
+  · exact clsDelim_soft cfg t h
+  · unfold soft; simp [h]
+theorem clsTry_soft (cfg : Cfg) (hc : cfg.useTry = true) (t) (h : clsTry t = true) : soft cfg t = true := by
+  simp only [clsTry, Bool.or_eq_true] at h
+  rcases h with ((h | h) | h) | h
+  · unfold soft; simp [h, hc]
+  · unfold soft; simp [h, hc]
+  · unfold soft; simp [h, hc]
+  · exact clsDelim_soft cfg t h
+
+/-- the soft rules of `post` (everything but the two opt-in hard rewrites) -/
+def postSoft (cfg : Cfg) (ts : List Tok) : List Tok :=
+  let ts := runRule ruleVec ts
+  let ts := runRule ruleAbi ts
+  let ts := runRule ruleVis ts
+  let ts := whereSep false 0 ts
+  let ts := runRule ruleEmpty ts
+  let ts := runRule rulePipe ts
+  let ts := closureSep 0 0 noTok ts
+  let ts := runRule ruleSemi ts
+  let ts := runRule ruleBlock ts
+  let ts := runRule ruleComma ts
+  let ts := onlyIf cfg.parens (runRule ruleParen) ts
+  let ts := runRule ruleLitParen ts
+  runRule ruleClosureParen ts
+
+theorem post_eq (cfg : Cfg) (ts : List Tok) :
+    post cfg ts = postSoft cfg (onlyIf cfg.wild wildCondense
+      (onlyIf cfg.useTry (runRule ruleTry) (onlyIf cfg.fis (runRule ruleFis) ts))) := rfl
+
+theorem runRule_hards (cfg : Cfg) {S : Tok → Bool} {f : Rule} (hf : RuleLocal S f)
+    (hS : ∀ t, S t = true → soft cfg t = true) (ts : List Tok) :
+    hards cfg (runRule f ts) = hards cfg ts :=
+  outside_mono hS (runRule_outside S f hf ts)
+
+theorem postSoft_hards (cfg : Cfg) (ts : List Tok) : hards cfg (postSoft cfg ts) = hards cfg ts := by
+  unfold postSoft
+  simp only []
+  rw [runRule_hards cfg ruleClosureParen_local (clsDelim_soft cfg),
+      runRule_hards cfg ruleLitParen_local (clsDelim_soft cfg)]
+  have hp : ∀ x, hards cfg (onlyIf cfg.parens (runRule ruleParen) x) = hards cfg x := by
+    intro x; unfold onlyIf; split
+    · exact runRule_hards cfg ruleParen_local (clsDelim_soft cfg) x
+    · rfl
+  rw [hp, runRule_hards cfg ruleComma_local (clsComma_soft cfg),
+      runRule_hards cfg ruleBlock_local (clsBlock_soft cfg),
+      runRule_hards cfg ruleSemi_local (clsSemi_soft cfg),
+      hards_eq_outside, outside_mono (clsComma_soft cfg) (closureSep_local _ 0 0 noTok), ← hards_eq_outside,
+      runRule_hards cfg rulePipe_local (clsPipe_soft cfg),
+      runRule_hards cfg ruleEmpty_local (clsEmpty_soft cfg),
+      hards_eq_outside, outside_mono (clsComma_soft cfg) (whereSep_local _ false 0), ← hards_eq_outside,
+      runRule_hards cfg ruleVis_local (clsVis_soft cfg),
+      runRule_hards cfg ruleAbi_local (clsAbi_soft cfg),
+      runRule_hards cfg ruleVec_local (clsDelim_soft cfg)]
+
+theorem tryRule_hards (cfg : Cfg) (ts : List Tok) :
+    hards cfg (onlyIf cfg.useTry (runRule ruleTry) ts) = hards cfg ts := by
+  unfold onlyIf; split
+  · rename_i h; exact runRule_hards cfg ruleTry_local (clsTry_soft cfg h) ts
+  · rfl
+
+/-- the two opt-in rewrites of hard tokens -/
+def hardRw (cfg : Cfg) (ts : List Tok) : List Tok :=
+  onlyIf cfg.wild wildCondense (onlyIf cfg.fis (runRule ruleFis) ts)
+
+
+/-! ## Reorder regions as segments -/
+
+inductive Seg where
+  | plain (t : Tok)
+  | region (k : Kind) (leaves : List (List Tok))
+deriving DecidableEq, Repr
+
+/-- `regionAt` with the canonical leaves instead of their encoding -/
+def regionLeavesAt (cfg : Cfg) (ts : List Tok) : Option (Nat × Kind × List (List Tok)) :=
+  match itemLen cfg ts with
+  | none => none
+  | some (k, n) =>
+    if cfg.imports || k == 3 then
+      let lens := runItemsAux cfg k 0 ts
+      let total := sumNat lens
+      some (total, k, canonLeaves k (runLeaves k (cutItems lens (ts.take total))))
+    else
+      some (n, k, canonLeaves k (itemLeaves k (ts.take n)))
+
+theorem regionAt_eq (cfg : Cfg) (ts : List Tok) :
+    regionAt cfg ts = (regionLeavesAt cfg ts).map fun x => (x.1, encRegion x.2.1 x.2.2) := by
+  unfold regionAt regionLeavesAt
+  cases itemLen cfg ts with
+  | none => rfl
+  | some x =>
+    obtain ⟨k, n⟩ := x
+    simp only []
+    split <;> rfl
+
+def segsAux (cfg : Cfg) : Nat → List Tok → List Seg
+  | _, [] => []
+  | n + 1, _ :: ts => segsAux cfg n ts
+  | 0, t :: ts =>
+    match regionLeavesAt cfg (t :: ts) with
+    | some (n, k, l) => .region k l :: segsAux cfg (n - 1) ts
+    | none => .plain t :: segsAux cfg 0 ts
+
+def segs (cfg : Cfg) (ts : List Tok) : List Seg := segsAux cfg 0 ts
+
+def render : List Seg → List Tok
+  | [] => []
+  | .plain t :: r => t :: render r
+  | .region k l :: r => encRegion k l ++ render r
+
+theorem regionsAux_eq_render (cfg : Cfg) : ∀ (ts : List Tok) (n : Nat),
+    regionsAux cfg n ts = render (segsAux cfg n ts) := by
+  intro ts
+  induction ts with
+  | nil => intro n; simp [regionsAux, segsAux, render]
+  | cons t ts ih =>
+    intro n
+    cases n with
+    | succ n => simp [regionsAux, segsAux, ih]
+    | zero =>
+      unfold regionsAux segsAux
+      rw [regionAt_eq]
+      cases h : regionLeavesAt cfg (t :: ts) with
+      | none => simp [render, ih]
+      | some x => obtain ⟨n, k, l⟩ := x; simp [render, ih]
+
+theorem regions_eq_render (cfg : Cfg) (ts : List Tok) : regions cfg ts = render (segs cfg ts) :=
+  regionsAux_eq_render cfg ts 0
+
+/-- a token of one of the synthetic classes `Ro` `Rs` `Rc` `Rt…` -/
+def isR (t : Tok) : Bool := match t.cls with | 'R' :: _ => true | _ => false
+
+theorem isR_hard (cfg : Cfg) (t : Tok) (h : isR t = true) : hard cfg t = true := by
+  obtain ⟨cls, text⟩ := t
+  unfold isR at h
+  split at h
+  · rename_i r hr
+    simp only at hr
+    subst hr
+    simp [hard, soft, Tok.isOpen, Tok.isClose, Tok.isP, Tok.isI, isAbiC]
+  · cases h
+
+theorem isR_wrapTok (t : Tok) : isR (wrapTok t) = true := rfl
+theorem isR_regOpen (k) : isR (regOpen k) = true := rfl
+theorem isR_regSep : isR regSep = true := rfl
+theorem isR_regClose : isR regClose = true := rfl
+
+theorem encLeaves_allR : ∀ (ls : List (List Tok)) (t : Tok), t ∈ encLeaves ls → isR t = true := by
+  intro ls
+  induction ls with
+  | nil => intro t h; simp [encLeaves] at h
+  | cons l ls ih =>
+    intro t h
+    simp only [encLeaves, encLeaf, List.mem_append, List.mem_map, List.mem_singleton] at h
+    rcases h with (⟨x, _, rfl⟩ | rfl) | h
+    · rfl
+    · rfl
+    · exact ih t h
+
+theorem encRegion_allR (k : Kind) (ls : List (List Tok)) (t : Tok) (h : t ∈ encRegion k ls) : isR t = true := by
+  unfold encRegion at h
+  split at h
+  · simp at h
+  · simp only [List.mem_cons, List.mem_append, List.mem_singleton, List.not_mem_nil, or_false] at h
+    rcases h with rfl | h | rfl
+    · rfl
+    · exact encLeaves_allR ls t h
+    · rfl
+
+theorem hards_of_allR (cfg : Cfg) (ts : List Tok) (h : ∀ t ∈ ts, isR t = true) : hards cfg ts = ts := by
+  unfold hards
+  rw [List.filter_eq_self]
+  intro t ht
+  exact isR_hard cfg t (h t ht)
+
+def Seg.keep (cfg : Cfg) : Seg → Bool
+  | .plain t => hard cfg t
+  | .region _ l => !l.isEmpty
+
+theorem hards_append (cfg : Cfg) (a b : List Tok) : hards cfg (a ++ b) = hards cfg a ++ hards cfg b := by
+  simp [hards]
+
+theorem hards_render (cfg : Cfg) : ∀ sg : List Seg, hards cfg (render sg) = render (sg.filter (Seg.keep cfg)) := by
+  intro sg
+  induction sg with
+  | nil => rfl
+  | cons s sg ih =>
+    cases s with
+    | plain t =>
+      simp only [render, List.filter_cons, Seg.keep]
+      by_cases h : hard cfg t = true
+      · simp [hards, h, render]; exact ih
+      · simp [hards, h]; exact ih
+    | region k l =>
+      simp only [render, List.filter_cons, Seg.keep, hards_append]
+      rw [hards_of_allR cfg _ (encRegion_allR k l), ih]
+      cases l with
+      | nil => simp [encRegion]
+      | cons x xs => simp [render]
+
+
+theorem wrapTok_inj {a b : Tok} (h : wrapTok a = wrapTok b) : a = b := by
+  obtain ⟨c1, t1⟩ := a; obtain ⟨c2, t2⟩ := b
+  simp [wrapTok] at h
+  simp [h]
+
+theorem wrapTok_ne_sep (a : Tok) : wrapTok a ≠ regSep := by
+  intro h; simp [wrapTok, regSep] at h
+theorem wrapTok_ne_close (a : Tok) : wrapTok a ≠ regClose := by
+  intro h; simp [wrapTok, regClose] at h
+theorem regSep_ne_close : regSep ≠ regClose := by decide
+
+theorem encLeaf_inj : ∀ (x y : List Tok) (u v : List Tok),
+    x.map wrapTok ++ regSep :: u = y.map wrapTok ++ regSep :: v → x = y ∧ u = v := by
+  intro x
+  induction x with
+  | nil =>
+    intro y u v h
+    cases y with
+    | nil => simp at h; exact ⟨rfl, h⟩
+    | cons b y => simp at h; exact absurd h.1.symm (wrapTok_ne_sep b)
+  | cons a x ih =>
+    intro y u v h
+    cases y with
+    | nil => simp at h; exact absurd h.1 (wrapTok_ne_sep a)
+    | cons b y =>
+      simp only [List.map_cons, List.cons_append, List.cons.injEq] at h
+      obtain ⟨h1, h2⟩ := ih y u v h.2
+      exact ⟨by rw [wrapTok_inj h.1, h1], h2⟩
+
+theorem encLeaves_cons_head (l : List Tok) (ls : List (List Tok)) (r : List Tok) :
+    encLeaves (l :: ls) ++ r = l.map wrapTok ++ regSep :: (encLeaves ls ++ r) := by
+  simp [encLeaves, encLeaf]
+
+theorem encLeaves_inj : ∀ (l1 l2 : List (List Tok)) (r1 r2 : List Tok),
+    encLeaves l1 ++ regClose :: r1 = encLeaves l2 ++ regClose :: r2 → l1 = l2 ∧ r1 = r2 := by
+  intro l1
+  induction l1 with
+  | nil =>
+    intro l2 r1 r2 h
+    cases l2 with
+    | nil => simp [encLeaves] at h; exact ⟨rfl, h⟩
+    | cons y ys =>
+      rw [encLeaves_cons_head] at h
+      simp only [encLeaves, List.nil_append] at h
+      cases y with
+      | nil => simp at h; exact absurd h.1.symm regSep_ne_close
+      | cons b y => simp at h; exact absurd h.1.symm (wrapTok_ne_close b)
+  | cons x xs ih =>
+    intro l2 r1 r2 h
+    cases l2 with
+    | nil =>
+      rw [encLeaves_cons_head] at h
+      simp only [encLeaves, List.nil_append] at h
+      cases x with
+      | nil => simp at h; exact absurd h.1 regSep_ne_close
+      | cons b y => simp at h; exact absurd h.1 (wrapTok_ne_close b)
+    | cons y ys =>
+      rw [encLeaves_cons_head, encLeaves_cons_head] at h
+      obtain ⟨h1, h2⟩ := encLeaf_inj x y _ _ h
+      obtain ⟨h3, h4⟩ := ih ys r1 r2 h2
+      exact ⟨by rw [h1, h3], h4⟩
+
+def Seg.wf : Seg → Prop
+  | .plain t => isR t = false
+  | .region _ l => l ≠ []
+
+theorem regOpen_inj {k k' : Kind} (h : regOpen k = regOpen k') : k = k' := by
+  simp [regOpen] at h
+  exact h
+
+theorem encRegion_cons (k : Kind) (x : List Tok) (xs : List (List Tok)) (r : List Tok) :
+    encRegion k (x :: xs) ++ r = regOpen k :: (encLeaves (x :: xs) ++ regClose :: r) := by
+  simp [encRegion]
+
+theorem render_inj : ∀ (s1 s2 : List Seg), (∀ s ∈ s1, s.wf) → (∀ s ∈ s2, s.wf) →
+    render s1 = render s2 → s1 = s2 := by
+  intro s1
+  induction s1 with
+  | nil =>
+    intro s2 _ h2 h
+    cases s2 with
+    | nil => rfl
+    | cons b s2 =>
+      cases b with
+      | plain t => simp [render] at h
+      | region k l =>
+        have := h2 _ (List.mem_cons_self)
+        cases l with
+        | nil => exact absurd rfl this
+        | cons x xs => simp only [render] at h; rw [encRegion_cons] at h; cases h
+  | cons a s1 ih =>
+    intro s2 h1 h2 h
+    have ha := h1 a (List.mem_cons_self)
+    have h1' : ∀ s ∈ s1, s.wf := fun s hs => h1 s (List.mem_cons_of_mem _ hs)
+    cases s2 with
+    | nil =>
+      cases a with
+      | plain t => simp [render] at h
+      | region k l =>
+        cases l with
+        | nil => exact absurd rfl ha
+        | cons x xs => simp only [render] at h; rw [encRegion_cons] at h; cases h
+    | cons b s2 =>
+      have hb := h2 b (List.mem_cons_self)
+      have h2' : ∀ s ∈ s2, s.wf := fun s hs => h2 s (List.mem_cons_of_mem _ hs)
+      cases a with
+      | plain t =>
+        cases b with
+        | plain u =>
+          simp only [render, List.cons.injEq] at h
+          rw [h.1, ih s2 h1' h2' h.2]
+        | region k l =>
+          cases l with
+          | nil => exact absurd rfl hb
+          | cons x xs =>
+            simp only [render] at h; rw [encRegion_cons] at h
+            simp only [List.cons.injEq] at h
+            have : isR t = true := by rw [h.1]; rfl
+            simp [Seg.wf] at ha; rw [ha] at this; cases this
+      | region k l =>
+        cases l with
+        | nil => exact absurd rfl ha
+        | cons x xs =>
+          cases b with
+          | plain u =>
+            simp only [render] at h; rw [encRegion_cons] at h
+            simp only [List.cons.injEq] at h
+            have : isR u = true := by rw [← h.1]; rfl
+            simp [Seg.wf] at hb; rw [hb] at this; cases this
+          | region k' l' =>
+            cases l' with
+            | nil => exact absurd rfl hb
+            | cons y ys =>
+              simp only [render] at h; rw [encRegion_cons, encRegion_cons] at h
+              simp only [List.cons.injEq] at h
+              have hk := regOpen_inj h.1
+              obtain ⟨hl, hr⟩ := encLeaves_inj _ _ _ _ h.2
+              rw [hk, hl, ih s2 h1' h2' hr]
+
+
+/-- no token of a synthetic class (true of everything the lexer sends) -/
+def NoR (ts : List Tok) : Prop := ∀ t ∈ ts, isR t = false
+
+theorem NoR_cons {t : Tok} {ts : List Tok} : NoR (t :: ts) ↔ isR t = false ∧ NoR ts := by
+  simp [NoR]
+
+theorem NoR_append {a b : List Tok} : NoR (a ++ b) ↔ NoR a ∧ NoR b := by
+  simp only [NoR, List.mem_append]
+  constructor
+  · intro h; exact ⟨fun t ht => h t (Or.inl ht), fun t ht => h t (Or.inr ht)⟩
+  · rintro ⟨h1, h2⟩ t (ht | ht); exact h1 t ht; exact h2 t ht
+
+theorem resplitAux_noR : ∀ (ts : List Tok) (dots : Nat), NoR ts → NoR (resplitAux dots ts) := by
+  intro ts
+  induction ts with
+  | nil => intro _ h; simpa [resplitAux] using h
+  | cons t ts ih =>
+    intro dots h
+    rw [NoR_cons] at h
+    unfold resplitAux
+    split
+    · exact NoR_cons.2 ⟨h.1, ih _ h.2⟩
+    · split
+      · split
+        · refine NoR_cons.2 ⟨rfl, NoR_cons.2 ⟨rfl, NoR_cons.2 ⟨rfl, ih _ h.2⟩⟩⟩
+        · exact NoR_cons.2 ⟨h.1, ih _ h.2⟩
+      · exact NoR_cons.2 ⟨h.1, ih _ h.2⟩
+
+theorem docAttrToks_noR {inner : Bool} {o d e s c : Tok} {x : List Tok}
+    (h : docAttrToks inner o d e s c = some x) : NoR x := by
+  unfold docAttrToks at h
+  split at h
+  · simp only [Option.map_eq_some_iff] at h
+    obtain ⟨v, _, rfl⟩ := h
+    intro t ht
+    simp only [List.mem_map] at ht
+    obtain ⟨l, _, rfl⟩ := ht
+    rfl
+  · cases h
+
+theorem docAttrAt_noR {ts : List Tok} {x : List Tok} {n : Nat} (h : docAttrAt ts = some (x, n)) : NoR x := by
+  unfold docAttrAt at h
+  split at h
+  · split at h
+    · split at h
+      · rename_i y hy; cases h; exact docAttrToks_noR hy
+      · split at h
+        · split at h
+          · simp only [Option.map_eq_some_iff] at h
+            obtain ⟨y, hy, hh⟩ := h
+            cases hh
+            exact docAttrToks_noR hy
+          · cases h
+        · cases h
+    · cases h
+  · cases h
+
+theorem docAttrAux_noR : ∀ (ts : List Tok) (n : Nat), NoR ts → NoR (docAttrAux n ts) := by
+  intro ts
+  induction ts with
+  | nil => intro _ h; simpa [docAttrAux] using h
+  | cons t ts ih =>
+    intro n h
+    rw [NoR_cons] at h
+    cases n with
+    | succ n => simp only [docAttrAux]; exact ih n h.2
+    | zero =>
+      simp only [docAttrAux]
+      split
+      · rename_i x n hx
+        exact NoR_append.2 ⟨docAttrAt_noR hx, ih n h.2⟩
+      · exact NoR_cons.2 ⟨h.1, ih 0 h.2⟩
+
+theorem canonTok_cls (cfg : Cfg) (t : Tok) :
+    (canonTok cfg t).cls = t.cls ∨ (t.cls = ['L','i'] ∧ (canonTok cfg t).cls = ['L','f']) := by
+  unfold canonTok
+  repeat' split
+  all_goals simp_all
+
+theorem canonTok_noR (cfg : Cfg) (t : Tok) (h : isR t = false) : isR (canonTok cfg t) = false := by
+  rcases canonTok_cls cfg t with h1 | ⟨_, h2⟩
+  · unfold isR at *; rw [h1]; exact h
+  · simp [isR, h2]
+
+theorem docMergeAux_noR (code : Bool) : ∀ (ts : List Tok) (cur : Option (Bool × List (List Char))),
+    NoR ts → NoR (docMergeAux code cur ts) := by
+  intro ts
+  induction ts with
+  | nil =>
+    intro cur _
+    cases cur with
+    | none => simp [docMergeAux, NoR]
+    | some x => obtain ⟨i, acc⟩ := x; simp [docMergeAux, NoR, docFlush, isR]
+  | cons t ts ih =>
+    intro cur h
+    rw [NoR_cons] at h
+    cases cur with
+    | none =>
+      simp only [docMergeAux]
+      split
+      · exact ih _ h.2
+      · exact NoR_cons.2 ⟨h.1, ih _ h.2⟩
+    | some x =>
+      obtain ⟨j, acc⟩ := x
+      simp only [docMergeAux]
+      split
+      · split
+        · exact ih _ h.2
+        · exact NoR_cons.2 ⟨rfl, ih _ h.2⟩
+      · exact NoR_cons.2 ⟨rfl, NoR_cons.2 ⟨h.1, ih _ h.2⟩⟩
+
+theorem mid_noR (cfg : Cfg) (ts : List Tok) (h : NoR ts) : NoR (mid cfg ts) := by
+  unfold mid
+  simp only []
+  have h1 : NoR (resplit ts) := resplitAux_noR ts 0 h
+  have h2 : NoR (onlyIf cfg.docattr docAttr (resplit ts)) := by
+    unfold onlyIf; split
+    · exact docAttrAux_noR _ 0 h1
+    · exact h1
+  have h3 : NoR ((onlyIf cfg.docattr docAttr (resplit ts)).map (canonTok cfg)) := by
+    intro t ht
+    simp only [List.mem_map] at ht
+    obtain ⟨u, hu, rfl⟩ := ht
+    exact canonTok_noR cfg u (h2 u hu)
+  unfold onlyIf; split
+  · exact docMergeAux_noR _ _ none h3
+  · exact h3
+
+theorem segsAux_plain_mem (cfg : Cfg) : ∀ (ts : List Tok) (n : Nat) (t : Tok),
+    Seg.plain t ∈ segsAux cfg n ts → t ∈ ts := by
+  intro ts
+  induction ts with
+  | nil => intro n t h; simp [segsAux] at h
+  | cons u ts ih =>
+    intro n t h
+    cases n with
+    | succ n => simp only [segsAux] at h; exact List.mem_cons_of_mem _ (ih n t h)
+    | zero =>
+      simp only [segsAux] at h
+      split at h
+      · simp only [List.mem_cons, reduceCtorEq, false_or] at h
+        exact List.mem_cons_of_mem _ (ih _ t h)
+      · simp only [List.mem_cons, Seg.plain.injEq] at h
+        rcases h with rfl | h
+        · exact List.mem_cons_self
+        · exact List.mem_cons_of_mem _ (ih _ t h)
+
+/-- the certificate: the hard tokens outside reorder regions, in order, interleaved with the
+(non-empty) reorder regions as canonical leaf lists -/
+def hardSeq (cfg : Cfg) (ts : List Tok) : List Seg := (segs cfg (mid cfg ts)).filter (Seg.keep cfg)
+
+theorem hardSeq_wf (cfg : Cfg) (ts : List Tok) (h : NoR ts) : ∀ s ∈ hardSeq cfg ts, s.wf := by
+  intro s hs
+  unfold hardSeq at hs
+  simp only [List.mem_filter] at hs
+  cases s with
+  | plain t => exact mid_noR cfg ts h t (segsAux_plain_mem cfg _ 0 t hs.1)
+  | region k l =>
+    have := hs.2
+    simp only [Seg.keep, Bool.not_eq_true', List.isEmpty_eq_false_iff] at this
+    exact this
 
 end RF.Tok
